@@ -91,12 +91,13 @@ def gen(fmts, heavy, nps):
                     # pairwise-ish: full product with alignment for the light tier is large; rotate alignment and history
                     for al_i, (hints, ed, envh) in enumerate(ALIGNS):
                         if not heavy and (al_i + ai + vi + di) % 4 != 0: continue
-                        for hi in range(6):
+                        for hi in range(7):
                             if hi < 4 and not heavy and (hi + vi + al_i) % 2 != 0: continue
                             for np in nps:
                                 if hi == 4 and (np < 2 or not any(d[1] is None for d in dims) or not vars_ or (not heavy and (ai + al_i) % 2)): continue
                                 if hi == 5 and (not any(d[1] is None for d in dims) or not vars_ or al_i > 1 or (np > 1 and ai % 2) or (not heavy and (ai + vi) % 2)): continue
                                 if hi < 4 and np > 1 and (hi + ai) % 3 != 0: continue
+                                if hi == 6 and (not vars_ or (np > 1 and ai % 2) or (not heavy and (ai + vi + al_i) % 2)): continue
                                 env = {'PNETCDF_HINTS': ';'.join('%s=%s' % kv for kv in envh.items())} if envh else None
                                 p = Prog('S-f%d-d%d-a%d-v%d-al%d-h%d-np%d' % (fmt, di, ai, vi, al_i, hi, np), np, fmt, hints, env)
                                 p.envh = envh
@@ -108,6 +109,12 @@ def gen(fmts, heavy, nps):
                                             p.do(dict(op='put_att', v=-1, name=a[0], xtype=a[1], vals=a[2][:1])); break
                                     if vars_ and p.m.vars[0]['atts']:
                                         p.do(dict(op='put_att', v=0, name='units', xtype=D.NC_CHAR, vals=b'K'))
+                                if hi == 6:
+                                    # h6: names whose byte length changes under the library's NFC normalisation (the header holds the normalised form):
+                                    # one that grows, one that shrinks, given in define mode; the first is replaced in data mode by one that shrinks
+                                    p.do(dict(op='rename_var', v=0, name='\u0958x'))
+                                    if len(vars_) > 1: p.do(dict(op='rename_var', v=len(vars_) - 1, name='e\u0301q'))
+                                    elif dims: p.do(dict(op='rename_dim', d=0, name='e\u0301q'))
                                 # h5: free space between the fixed-size and the record section; the later redefinition outgrows the header
                                 # extent (fixed-size variables shift into the gap) and adds a record variable (records must be re-strided)
                                 p.do(dict(op='_enddef', h_minfree=0, v_align=4, v_minfree=2000, r_align=4) if hi == 5 else ed); p.checkpoint('enddef')
@@ -145,6 +152,9 @@ def gen(fmts, heavy, nps):
                                     p.do(dict(op='def_var', name='nr', xtype=D.NC_SHORT, dims=[next(i for i, d in enumerate(dims) if d[1] is None)]))
                                     p.do(dict(op='enddef')); p.checkpoint('enddef after redef into the gap')
                                     p.read_all('after redef into the gap')
+                                if hi == 6:
+                                    p.write_all(); p.do(dict(op='sync')); p.checkpoint('sync after renames to non-normalised names')
+                                    p.do(dict(op='rename_var', v=0, name='o\u0308')); p.checkpoint('rename_var to a non-normalised name in data mode')
                                 if hi == 3 and vars_:
                                     n0 = vars_[0][0]
                                     if len(n0) > 1 and not any(v[0] == n0[0] for v in vars_):
@@ -252,7 +262,7 @@ def main(tier=None):
     ck.cov['distinct_nontrivial'] = len(ck.outcomes)
     ck.cov['checkpoints'] = ncp
     ck.cov['rule'] = ('product of dimension sets x global-attribute sets (every type, zero/odd lengths, UTF-8 names) x variable sets (fixed/record in every order, odd element sizes, exactly-one-record-variable) '
-                      'x 8 alignment configurations (info hints, ncmpi__enddef arguments, PNETCDF_HINTS) x 4 histories (enddef; +write+sync; +redef adding objects; +data-mode rename/put_att) x formats x np in {1,2} '
+                      'x 8 alignment configurations (info hints, ncmpi__enddef arguments, PNETCDF_HINTS) x histories (enddef; +write+sync; +redef adding objects; +data-mode rename/put_att; independent appends; redef into a gap; renames to names whose byte length changes under NFC normalisation) x formats x np in {1,2} '
                       '(quick: a 1/8 cyclic sub-product); at every up-to-date point the file bytes are decoded by engine/cdf.py and compared with the model and the layout invariants; plus the headers of files whose last fixed-size / last record variable exceeds 2^32-4 bytes (vsize saturation) in every format that allows it; distinct_nontrivial = distinct file images')
     ck.sample(progs[0].case.text()[:1500]); ck.sample(progs[len(progs) // 2].case.text()[:1800])
     ck.assumptions += ['the precedence between MPI_Info hints and ncmpi__enddef arguments is documented inconsistently; only the reported effective values are checked against the layout', 'codec engine/cdf.py is the trusted base (self-tested, cross-checked with ncvalidator)']
